@@ -14,6 +14,7 @@ mod c08;
 mod c09;
 mod c10;
 mod c11;
+mod c12;
 mod c13;
 mod c16;
 mod c18;
@@ -125,6 +126,7 @@ fn main() {
         "C09" => run::<c09::C09>(&args),
         "C10" => run::<c10::C10>(&args),
         "C11" => run::<c11::C11>(&args),
+        "C12" => run::<c12::C12>(&args),
         "C13" => run::<c13::C13>(&args),
         "C14" => run::<bessel::C14>(&args),
         "C16" => run::<c16::C16>(&args),
